@@ -497,7 +497,7 @@ def run(ctx):
     sw = list(sweep_cases(ctx.seed, ctx.quick))
     ctx.sweep(sw, check_case)
     ctx.extra["sweep_cases"] = len(sw)
-    ctx.hyp(cases, check_case, max_examples=ctx.pick(1500, 40000), tag="c41")
+    ctx.hyp(cases, check_case, max_examples=ctx.pick(1500, 30000), tag="c41")
 
 
 def replay(case):
